@@ -26,6 +26,7 @@ type ioState struct {
 	How    string
 	Writes int
 	Ret    string
+	Sticky bool // read: the reader keeps failing (false: it fails once and would deliver the rest if read again)
 }
 
 func ioStateOf(st *tla.State) *ioState {
@@ -39,6 +40,9 @@ func ioStateOf(st *tla.State) *ioState {
 	}
 	op := tla.R(st.Get("op"))
 	s.Kind, s.At = tla.S(op["k"]), tla.I(op["at"])
+	if s.Kind == "read" {
+		s.Sticky = tla.B(op["sticky"])
+	}
 	if s.Kind == "write" {
 		s.Sink, s.How, s.Writes = tla.S(op["kind"]), tla.S(op["how"]), len(tla.Q(op["writes"]))
 	}
@@ -214,6 +218,7 @@ func checkReaderFault(r *evid.Run, pool *wproto.Pool, s *ioState, c *tok.Conc, r
 			rq := fillReq(rt, s.Items, c)
 			o := off
 			rq.ReadFail = &o
+			rq.ReadOnce = !s.Sticky
 			rq.ErrWrap = errIdents[(s.N+off)%len(errIdents)]
 			rp := pool.Call(rq, 30*time.Second)
 			r.Count("real_calls", 1)
@@ -235,7 +240,7 @@ func checkReaderFault(r *evid.Run, pool *wproto.Pool, s *ioState, c *tok.Conc, r
 				} else {
 					kind += ":" + strings.SplitN(rp.Err, ":", 2)[0]
 				}
-				r.Mismatch(rt.name+":"+kind, fmt.Sprintf("doc=%q reader fails after byte %d (%q delivered): returned %q", rq.Doc, off, rq.Doc[:off], rp.Err), ioReplay{s.Items, rt.name, rq, rp})
+				r.Mismatch(rt.name+":"+kind, fmt.Sprintf("doc=%q reader fails after byte %d (%q delivered; fails once only: %v): returned %q", rq.Doc, off, rq.Doc[:off], rq.ReadOnce, rp.Err), ioReplay{s.Items, rt.name, rq, rp})
 			}
 		}
 	}
